@@ -136,8 +136,13 @@ func main() {
 				continue
 			}
 			astutil.AddImport(p.Fset, f, simrtPath)
+			if in.timers {
+				// the simulated timers of this file need the timer daemon
+				f.Decls = append(f.Decls, &ast.FuncDecl{Name: ast.NewIdent("init"), Type: &ast.FuncType{Params: &ast.FieldList{}},
+					Body: &ast.BlockStmt{List: []ast.Stmt{&ast.ExprStmt{X: simCall("EnableTimerDaemon")}}}})
+			}
 			// drop imports that became unused through the rewrites
-			for _, imp := range []string{"github.com/oklog/ulid/v2", "maps", "golang.org/x/exp/maps", "os", "time", "runtime"} {
+			for _, imp := range []string{"github.com/oklog/ulid/v2", "maps", "golang.org/x/exp/maps", "os", "time", "runtime", "context", "sync"} {
 				if !astutil.UsesImport(f, imp) {
 					astutil.DeleteImport(p.Fset, f, imp)
 				}
@@ -229,6 +234,8 @@ type instr struct {
 	fn      []string // enclosing function name stack
 	comm    map[ast.Node]bool // communication clauses of select statements (and their receive expressions): left to the select
 	nsel    int
+	timers  bool // a timer construct was rewritten in this file
+	preFn   astutil.ApplyFunc
 }
 
 func (in *instr) site(kind string, pos token.Pos, extra string) string {
@@ -274,7 +281,7 @@ func (in *instr) run() bool {
 	info := in.pkg.TypesInfo
 	// Pass 1: expression / statement rewrites with astutil.Apply (pre-order so
 	// that site strings are computed from original positions).
-	astutil.Apply(in.file, func(c *astutil.Cursor) bool {
+	in.preFn = func(c *astutil.Cursor) bool {
 		switch n := c.Node().(type) {
 		case *ast.FuncDecl:
 			name := n.Name.Name
@@ -326,7 +333,8 @@ func (in *instr) run() bool {
 			}
 		case *ast.SelectStmt:
 			if in.full {
-				if st := in.rewriteSelect(n); st != nil {
+				_, userLabel := c.Parent().(*ast.LabeledStmt)
+				if st := in.rewriteSelect(n, !userLabel); st != nil {
 					c.Replace(st)
 				}
 			}
@@ -365,7 +373,8 @@ func (in *instr) run() bool {
 			}
 		}
 		return true
-	}, func(c *astutil.Cursor) bool {
+	}
+	astutil.Apply(in.file, in.preFn, func(c *astutil.Cursor) bool {
 		if _, ok := c.Node().(*ast.FuncDecl); ok {
 			in.fn = in.fn[:len(in.fn)-1]
 		}
@@ -520,7 +529,14 @@ func (in *instr) prependYield(body *ast.BlockStmt, site string) {
 // calleeOf returns the *types.Func a call resolves to (functions and methods).
 func calleeOf(info *types.Info, call *ast.CallExpr) *types.Func {
 	var id *ast.Ident
-	switch f := ast.Unparen(call.Fun).(type) {
+	fun := ast.Unparen(call.Fun)
+	switch f := fun.(type) { // explicit instantiation of a generic function
+	case *ast.IndexExpr:
+		fun = ast.Unparen(f.X)
+	case *ast.IndexListExpr:
+		fun = ast.Unparen(f.X)
+	}
+	switch f := fun.(type) {
 	case *ast.Ident:
 		id = f
 	case *ast.SelectorExpr:
@@ -545,6 +561,25 @@ func (in *instr) rewriteCall(c *astutil.Cursor, call *ast.CallExpr) {
 		}
 	}
 	fn := calleeOf(info, call)
+	if fn == nil && in.full {
+		// a call of a context.CancelFunc / CancelCauseFunc value closes a channel
+		// tasks may be parked on
+		if t := info.TypeOf(call.Fun); t != nil {
+			if nt, ok := t.(*types.Named); ok && nt.Obj().Pkg() != nil && nt.Obj().Pkg().Path() == "context" {
+				switch nt.Obj().Name() {
+				case "CancelFunc":
+					call.Args = []ast.Expr{call.Fun}
+					call.Fun = &ast.SelectorExpr{X: ast.NewIdent("simrt"), Sel: ast.NewIdent("CallCancel")}
+					in.changed = true
+				case "CancelCauseFunc":
+					call.Args = append([]ast.Expr{call.Fun}, call.Args...)
+					call.Fun = &ast.SelectorExpr{X: ast.NewIdent("simrt"), Sel: ast.NewIdent("CallCancelCause")}
+					in.changed = true
+				}
+			}
+		}
+		return
+	}
 	if fn == nil || fn.Pkg() == nil {
 		return
 	}
@@ -584,10 +619,43 @@ func (in *instr) rewriteCall(c *astutil.Cursor, call *ast.CallExpr) {
 			in.changed = true
 		}
 		return
-	case "time.Since", "time.Sleep", "time.After", "time.Tick", "time.NewTimer", "time.NewTicker", "time.AfterFunc",
-		"github.com/oklog/ulid/v2.Now", "github.com/oklog/ulid/v2.Timestamp", "github.com/oklog/ulid/v2.DefaultEntropy",
+	case "time.Since", "time.Until", "time.Sleep", "time.After", "time.Tick", "time.NewTimer", "time.NewTicker", "time.AfterFunc",
+		"context.WithTimeout", "context.WithDeadline", "runtime.Gosched":
+		if in.full {
+			name := fn.Name()
+			if fn.Pkg().Path() == "context" {
+				name = "Context" + name
+			}
+			site := in.site("clock", call.Pos(), name)
+			in.rep.ULIDSites = append(in.rep.ULIDSites, site)
+			call.Fun = &ast.SelectorExpr{X: ast.NewIdent("simrt"), Sel: ast.NewIdent(name)}
+			call.Args = append(call.Args, strLit(site))
+			in.changed = true
+			if name != "Since" && name != "Until" && name != "Gosched" && name != "Sleep" {
+				in.timers = true
+			}
+		}
+		return
+	case "sync.OnceFunc", "sync.OnceValue", "sync.OnceValues":
+		if in.full {
+			site := in.site("sync", call.Pos(), fn.Name())
+			in.rep.SyncSites = append(in.rep.SyncSites, site)
+			// explicit instantiations (sync.OnceValue[T]) keep their index expression
+			switch f := ast.Unparen(call.Fun).(type) {
+			case *ast.IndexExpr:
+				f.X = &ast.SelectorExpr{X: ast.NewIdent("simrt"), Sel: ast.NewIdent(fn.Name())}
+			case *ast.IndexListExpr:
+				f.X = &ast.SelectorExpr{X: ast.NewIdent("simrt"), Sel: ast.NewIdent(fn.Name())}
+			default:
+				call.Fun = &ast.SelectorExpr{X: ast.NewIdent("simrt"), Sel: ast.NewIdent(fn.Name())}
+			}
+			call.Args = append(call.Args, strLit(site))
+			in.changed = true
+		}
+		return
+	case "github.com/oklog/ulid/v2.Now", "github.com/oklog/ulid/v2.Timestamp", "github.com/oklog/ulid/v2.DefaultEntropy",
 		"github.com/oklog/ulid/v2.MustNew", "github.com/oklog/ulid/v2.New",
-		"os.Getpid", "os.Hostname", "os.Environ", "runtime.NumGoroutine", "runtime.Gosched":
+		"os.Getpid", "os.Hostname", "os.Environ", "runtime.NumGoroutine":
 		if in.full {
 			in.rep.Uncontrolled = append(in.rep.Uncontrolled, in.site("call "+full, call.Pos(), ""))
 		}
@@ -661,14 +729,27 @@ func (in *instr) rewriteCall(c *astutil.Cursor, call *ast.CallExpr) {
 		simName = "WaitGroupDone"
 	case "(*sync.WaitGroup).Wait":
 		simName, wantSite = "WaitGroupWait", true
+	case "(*sync.Cond).Wait":
+		simName, wantSite = "CondWait", true
+	case "(*sync.Cond).Signal":
+		simName = "CondSignal"
+	case "(*sync.Cond).Broadcast":
+		simName = "CondBroadcast"
+	case "(*sync.Map).Range":
+		simName, wantSite = "SyncMapRange", true
+	case "(*sync.Pool).Get":
+		simName, wantSite = "PoolGet", true
+	case "(*sync.Pool).Put":
+		simName, wantSite = "PoolPut", true
+	case "(*time.Timer).Stop":
+		simName = "TimerStop"
+	case "(*time.Timer).Reset":
+		simName = "TimerReset"
+	case "(*time.Ticker).Stop":
+		simName = "TickerStop"
+	case "(*time.Ticker).Reset":
+		simName = "TickerReset"
 	default:
-		if fn.Pkg().Path() == "sync" || fn.Pkg().Path() == "sync/atomic" {
-			// WaitGroup, Cond, Map, Pool, atomics: visible to the race detector,
-			// not to the scheduler.
-			if strings.Contains(full, "Cond") || strings.Contains(full, "sync.Map") || strings.Contains(full, "sync.Pool") {
-				in.rep.Uncontrolled = append(in.rep.Uncontrolled, in.site("call "+full, call.Pos(), ""))
-			}
-		}
 		return
 	}
 	sel, ok := ast.Unparen(call.Fun).(*ast.SelectorExpr)
@@ -747,29 +828,55 @@ func (in *instr) rewriteRangeChan(n *ast.RangeStmt) ast.Stmt {
 	}
 }
 
-// rewriteSelect leaves the communication clauses to the select statement, makes
-// every taken case wake parked tasks, and gives a select without default a
-// default clause that parks in the simulator and retries:
+// rewriteSelect keeps the communication clauses in a real select statement
+// (the real channels carry the values and the happens-before edges) but takes
+// the two decisions a select makes away from the Go runtime:
 //
+//   - which ready case is taken (the runtime picks uniformly at random): the
+//     cases are attempted one at a time, in an order chosen by the tape, by
+//     masking the channel operands of all other cases with nil (a nil channel
+//     is never ready);
+//   - blocking: when no case is ready the task parks in the simulator and the
+//     select is retried (or the user's default clause runs).
+//
+// The channel operands of receive cases and the channel and value operands of
+// send cases are evaluated exactly once, in source order, before the first
+// attempt, as the language specifies.
+//
+//	{
+//		_c0 := a; _c1 := b; _s1 := v          // operands, evaluated once
+//		_m0 := _c0; _m1 := _c1; _k := 0
+//		_o := simrt.SelectOrder(2, site)
 //	_verifSelN:
+//		_m0, _m1 = _c0, _c1
+//		if _o[_k] != 0 { _m0 = nil }
+//		if _o[_k] != 1 { _m1 = nil }
 //		select {
-//		case v := <-a: simrt.Unlocked(); ...
-//		default: simrt.SelectBlocked(site); goto _verifSelN
+//		case x := <-_m0: simrt.Unlocked(); ...
+//		case _m1 <- _s1: simrt.Unlocked(); ...
+//		default:
+//			_k++
+//			if _k < 2 { goto _verifSelN }
+//			_k = 0
+//			simrt.SelectBlocked(site); goto _verifSelN      // or the user's default body
 //		}
-func (in *instr) rewriteSelect(n *ast.SelectStmt) ast.Stmt {
+//	}
+func (in *instr) rewriteSelect(n *ast.SelectStmt, mayHoist bool) ast.Stmt {
 	if in.comm == nil {
 		in.comm = map[ast.Node]bool{}
 	}
-	hasDefault := false
+	var userDefault *ast.CommClause
+	var cases []*ast.CommClause
 	for _, cl := range n.Body.List {
 		cc, ok := cl.(*ast.CommClause)
 		if !ok {
 			continue
 		}
 		if cc.Comm == nil {
-			hasDefault = true
+			userDefault = cc
 			continue
 		}
+		cases = append(cases, cc)
 		in.comm[cc.Comm] = true
 		switch st := cc.Comm.(type) {
 		case *ast.ExprStmt:
@@ -784,19 +891,112 @@ func (in *instr) rewriteSelect(n *ast.SelectStmt) ast.Stmt {
 	in.changed = true
 	site := in.site("chan", n.Pos(), "select")
 	in.rep.SyncSites = append(in.rep.SyncSites, site)
-	if hasDefault {
-		// never blocks; cannot see a partner that waits in the simulator for a
-		// rendezvous on an unbuffered channel
-		in.rep.Uncontrolled = append(in.rep.Uncontrolled, in.site("select-with-default", n.Pos(), ""))
+	if len(cases) == 0 {
+		if userDefault == nil {
+			// `select {}` blocks forever
+			n.Body.List = append(n.Body.List, &ast.CommClause{Body: []ast.Stmt{
+				&ast.ForStmt{Body: &ast.BlockStmt{List: []ast.Stmt{&ast.ExprStmt{X: simCall("Blocked", strLit(site))}}}},
+			}})
+		}
 		return nil
 	}
 	in.nsel++
-	label := "_verifSel" + strconv.Itoa(in.nsel)
-	n.Body.List = append(n.Body.List, &ast.CommClause{Body: []ast.Stmt{
-		&ast.ExprStmt{X: simCall("SelectBlocked", strLit(site))},
-		&ast.BranchStmt{Tok: token.GOTO, Label: ast.NewIdent(label)},
-	}})
-	return &ast.LabeledStmt{Label: ast.NewIdent(label), Stmt: n}
+	pfx := "_verifSel" + strconv.Itoa(in.nsel)
+	label := pfx
+	id := func(s string) *ast.Ident { return ast.NewIdent(s) }
+	define := func(name string, e ast.Expr) ast.Stmt {
+		return &ast.AssignStmt{Lhs: []ast.Expr{id(name)}, Tok: token.DEFINE, Rhs: []ast.Expr{e}}
+	}
+	intLit := func(i int) ast.Expr { return &ast.BasicLit{Kind: token.INT, Value: strconv.Itoa(i)} }
+	if !mayHoist {
+		// `L: select`: a block in its place would orphan `break L`. The operands
+		// are re-evaluated per attempt and the runtime picks among ready cases
+		// (reported as uncontrolled).
+		in.rep.Uncontrolled = append(in.rep.Uncontrolled, in.site("labelled-select", n.Pos(), ""))
+		if userDefault != nil {
+			return nil
+		}
+		n.Body.List = append(n.Body.List, &ast.CommClause{Body: []ast.Stmt{
+			&ast.ExprStmt{X: simCall("SelectBlocked", strLit(site))},
+			&ast.BranchStmt{Tok: token.GOTO, Label: id(label)},
+		}})
+		return &ast.LabeledStmt{Label: id(label), Stmt: n}
+	}
+	var pre []ast.Stmt  // operand evaluation, source order
+	var post []ast.Stmt // masked copies
+	var reset []ast.Stmt
+	chanOf := func(cc *ast.CommClause) *ast.Expr {
+		switch st := cc.Comm.(type) {
+		case *ast.SendStmt:
+			return &st.Chan
+		case *ast.ExprStmt:
+			if u, ok := ast.Unparen(st.X).(*ast.UnaryExpr); ok && u.Op == token.ARROW {
+				return &u.X
+			}
+		case *ast.AssignStmt:
+			if len(st.Rhs) == 1 {
+				if u, ok := ast.Unparen(st.Rhs[0]).(*ast.UnaryExpr); ok && u.Op == token.ARROW {
+					return &u.X
+				}
+			}
+		}
+		return nil
+	}
+	for i, cc := range cases {
+		ce := chanOf(cc)
+		if ce == nil {
+			return nil // a form this rewrite does not know: leave the select alone
+		}
+		si := strconv.Itoa(i)
+		cName, mName := pfx+"c"+si, pfx+"m"+si
+		pre = append(pre, define(cName, *ce))
+		if st, ok := cc.Comm.(*ast.SendStmt); ok {
+			if tv, ok := in.pkg.TypesInfo.Types[st.Value]; !ok || (!tv.IsNil() && tv.Value == nil) {
+				sName := pfx + "s" + si
+				pre = append(pre, define(sName, st.Value))
+				st.Value = id(sName)
+			}
+		}
+		post = append(post, define(mName, id(cName)))
+		reset = append(reset,
+			&ast.AssignStmt{Lhs: []ast.Expr{id(mName)}, Tok: token.ASSIGN, Rhs: []ast.Expr{id(cName)}},
+			&ast.IfStmt{
+				Cond: &ast.BinaryExpr{X: &ast.IndexExpr{X: id(pfx + "o"), Index: id(pfx + "k")}, Op: token.NEQ, Y: intLit(i)},
+				Body: &ast.BlockStmt{List: []ast.Stmt{&ast.AssignStmt{Lhs: []ast.Expr{id(mName)}, Tok: token.ASSIGN, Rhs: []ast.Expr{id("nil")}}}},
+			})
+		*ce = id(mName)
+	}
+	tail := []ast.Stmt{
+		&ast.IncDecStmt{X: id(pfx + "k"), Tok: token.INC},
+		&ast.IfStmt{
+			Cond: &ast.BinaryExpr{X: id(pfx + "k"), Op: token.LSS, Y: intLit(len(cases))},
+			Body: &ast.BlockStmt{List: []ast.Stmt{&ast.BranchStmt{Tok: token.GOTO, Label: id(label)}}},
+		},
+	}
+	if userDefault != nil {
+		userDefault.Body = append(tail, userDefault.Body...)
+	} else {
+		tail = append(tail,
+			&ast.AssignStmt{Lhs: []ast.Expr{id(pfx + "k")}, Tok: token.ASSIGN, Rhs: []ast.Expr{intLit(0)}},
+			&ast.ExprStmt{X: simCall("SelectBlocked", strLit(site))},
+			&ast.BranchStmt{Tok: token.GOTO, Label: id(label)})
+		n.Body.List = append(n.Body.List, &ast.CommClause{Body: tail})
+	}
+	// the operand expressions left the subtree astutil.Apply is walking: give
+	// them the same treatment here (a `time.After(d)` operand, a nested receive)
+	for i := range pre {
+		if st, ok := astutil.Apply(pre[i], in.preFn, nil).(ast.Stmt); ok {
+			pre[i] = st
+		}
+	}
+	list := append(pre, post...)
+	list = append(list,
+		define(pfx+"k", intLit(0)),
+		define(pfx+"o", simCall("SelectOrder", intLit(len(cases)), strLit(site))))
+	reset[0] = &ast.LabeledStmt{Label: id(label), Stmt: reset[0]}
+	list = append(list, reset...)
+	list = append(list, n)
+	return &ast.BlockStmt{List: list}
 }
 
 func structOf(t types.Type) *types.Struct {
